@@ -27,6 +27,7 @@ on extend/aliased (= the known finding's signature; VIOLATION once the entry is 
 import json
 
 from vlib import ToolError
+from checks.relayproto_common import binding_selftest
 
 META = {
     "level": "model_checking",
@@ -103,6 +104,22 @@ def execute(ctx, cases, name):
             copied += 1          # identical blocking prefix already executed and judged
             continue
         judge(ctx, c, o)
+    for c, o in zip(cases, obs):
+        if o.get("same_as") is None and o.get("blocked_at") is None and not o.get("panic") and len(c["ops"]) >= 2 \
+                and c["ops"][0]["op"] == "insert":
+            def set_after(c_, o_):
+                h = sorted(o_["done"][0]["after"])[0]
+                u = sorted(o_["done"][0]["after"][h])[0]
+                o_["done"][0]["after"][h][u] = {"id": 77, "tok": 0}
+            binding_selftest(ctx, judge, c, o, [
+                ("contents", set_after),
+                ("return value", lambda c_, o_: o_["done"][1].__setitem__("ret", {"id": 99, "tok": 0})),
+                ("blocked", lambda c_, o_: o_.__setitem__("blocked_at", 1)),
+                ("queries", lambda c_, o_: o_["done"][0].__setitem__("queries_consistent", False)),
+                ("eq", lambda c_, o_: o_["done"][1].__setitem__("eq_consistent", False)),
+                ("expected return", lambda c_, o_: c_["ops"][0].__setitem__("ret", {"id": 5, "tok": 0})),
+                ("panic", lambda c_, o_: o_.__setitem__("panic", "boom"))])
+            break
     ctx.cov["sequences_sharing_an_executed_blocking_prefix"] = ctx.cov.get("sequences_sharing_an_executed_blocking_prefix", 0) + copied
 
 
